@@ -22,6 +22,7 @@ def run(ctx) -> int:
     if done:
         ctx.exhaustive.append("every verdict sequence of the removal strategies on the SMALL inputs (complete verdict trees)")
     drv.d2_random(ctx, WHICH, NT, 3000 if ctx.thorough else 900, aborts=False)
+    drv.d2_content_oracles(ctx, WHICH, NT)
     drv.d2_touching_test(ctx, WHICH, 600 if ctx.thorough else 150)
     return common.decide(ctx, proof, RULE, search=search,
                          assumptions=["candidate construction of the two rewriting strategies is not modelled: for them 'a rejected candidate never becomes the basis of later candidates' is the iterator-level theorem C01_best_is_last_accepted plus the monitor"])
